@@ -183,17 +183,36 @@ def coq_segs(x, table):
     return common.coq_list(segs)
 
 
+COQ_OP = {"=": "CEq", "!=": "CNe", "<": "CLt", ">": "CGt", "<=": "CLe", ">=": "CGe"}
+
+
 def coq_filter(f):
-    k = f["k"]
-    if k == "type":
-        return "FType %s" % (TYPE_NAME.get(f["v"]) or common.coq_ustr(f["v"]))
-    if k == "id":
-        return "FId %s" % coq_id(f["v"])
+    """A harness filter {"k": type|id|pay|prop, "op": one of FILTER_OPS (default "="), "v": value or list for "in"}."""
+    k, op = f["k"], f.get("op", "=")
+    if k in ("type", "id"):
+        name = (lambda v: TYPE_NAME.get(v) or common.coq_ustr(v)) if k == "type" else coq_id
+        if op == "=":
+            return "%s %s" % ("FType" if k == "type" else "FId", name(f["v"]))
+        if op == "!=":
+            return "FOther (%s %s)" % ("type_ne" if k == "type" else "oid_ne", name(f["v"]))
+        if op == "in":
+            return "FOther (%s %s)" % ("type_in" if k == "type" else "oid_in", common.coq_list([name(v) for v in f["v"]]))
+        raise ValueError(op)
     if k == "pay":
-        return "FOther (pay_is %s)" % common.coq_N(f["v"])
+        if op == "in":
+            return "FOther (pay_in %s)" % common.coq_list([common.coq_N(v) for v in f["v"]])
+        if op == "=":
+            return "FOther (pay_is %s)" % common.coq_N(f["v"])
+        return "FOther (pay_op %s %s)" % (COQ_OP[op], common.coq_N(f["v"]))
     if k == "prop":
-        v = f["v"]
-        return "FOther (prop_is k_%s %s)" % (f["p"], coq_id(v) if f["p"] != "relationship_type" else common.coq_ustr(v))
+        val = (lambda v: coq_id(v)) if f["p"] != "relationship_type" else common.coq_ustr
+        if op == "=":
+            return "FOther (prop_is k_%s %s)" % (f["p"], val(f["v"]))
+        if op == "!=":
+            return "FOther (prop_ne k_%s %s)" % (f["p"], val(f["v"]))
+        if op == "in":
+            return "FOther (prop_in k_%s %s)" % (f["p"], common.coq_list([val(v) for v in f["v"]]))
+        raise ValueError(op)
     raise ValueError(k)
 
 
@@ -432,6 +451,27 @@ def make_spec(rng, cls, oid, us, pay, style=None, typ=None, form_obj=False, prop
     return o
 
 
+def vary_op(rng, f, types, ids, maxpay):
+    """the same filter with another operator (all of FILTER_OPS that make sense for the property)"""
+    k = f["k"]
+    r = rng.random()
+    if r < 0.5:
+        return f
+    g = dict(f)
+    if k == "pay":
+        op = rng.choice(["!=", "<", ">", "<=", ">=", "in"])
+        g["op"] = op
+        if op == "in":
+            g["v"] = sorted(rng.sample(range(1, maxpay + 2), min(maxpay + 1, rng.randint(1, 3))))
+        return g
+    op = rng.choice(["!=", "in"])
+    g["op"] = op
+    if op == "in":
+        pool = types if k == "type" else (ids if k == "id" else [f["v"], "other-value"])
+        g["v"] = sorted(set(rng.sample(pool, min(len(pool), rng.randint(1, 2))) + ([f["v"]] if rng.random() < 0.5 else [])))
+    return g
+
+
 PROFILES = ["sdo21", "sdo20", "mixed", "custom", "unreg", "unversioned", "everything", "violating"]
 
 
@@ -507,6 +547,9 @@ def gen_case(rng, store, profile=None, max_adds=10):
             oid = rng.choice(ODD_IDS)
         actors.append((cls, oid, typ))
     palette = [BASE_US + rng.choice(OFFSETS) for _ in range(rng.randint(2, 5))]
+    # dictionary-kept content may lack `modified` altogether: such an id is never versioned (inside the domain;
+    # it shares its type directory with versioned ids of the same type)
+    flat_ids = {a[1] for a in actors if a[0] == "unreg" and rng.random() < 0.3}
     pay = [0]
     idents = [a[1] for a in actors if a[0].startswith("identity")]
 
@@ -522,6 +565,8 @@ def gen_case(rng, store, profile=None, max_adds=10):
             props = {"created_by_ref": rng.choice(idents)}
         o = make_spec(rng, cls, oid, us, pay[0], form_obj=True, props=props,
                       cre_us=CRE_US + rng.choice([0, 1000, 86400 * 10 ** 6]))
+        if oid in flat_ids:
+            o.pop("mod", None)
         if violating and cls == "unreg":
             r = rng.random()
             if r < 0.25:
@@ -553,7 +598,7 @@ def gen_case(rng, store, profile=None, max_adds=10):
             if rng.random() < 0.3:
                 qs.append([{"k": "prop", "p": "relationship_type", "v": "related-to"}])
         for q in qs:
-            out.append({"op": "query", "q": q})
+            out.append({"op": "query", "q": [vary_op(rng, f, all_types, all_ids, max(1, pay[0])) for f in q]})
         out.append({"op": "count"})
         return out
 
@@ -581,7 +626,7 @@ def gen_case(rng, store, profile=None, max_adds=10):
             steps.append({"op": "load", "x": tree})
         else:
             steps.append({"op": "add", "x": gen_tree(rng, store, specs, allow_bad)})
-        if rng.random() < 0.25:
+        if rng.random() < 0.4:
             steps += reads(False)
         if store == "mem" and rng.random() < 0.08:
             steps.append({"op": "saveload", "dir": rng.random() < 0.5})
@@ -642,16 +687,35 @@ def rec_of(o):
 
 
 def holds(f, r):
-    k = f["k"]
+    k, op = f["k"], f.get("op", "=")
     if k == "type":
-        return r["typ"] == f["v"]
-    if k == "id":
-        return r["id"] == f["v"]
-    if k == "pay":
-        return r["pay"] == f["v"]
-    if k == "prop":
-        return r["props"].get(f["p"]) == f["v"]
-    raise ValueError(k)
+        x = r["typ"]
+    elif k == "id":
+        x = r["id"]
+    elif k == "pay":
+        x = r["pay"]
+    elif k == "prop":
+        x = r["props"].get(f["p"])
+        if x is None:
+            return False                 # a property the object lacks: every operator answers False
+    else:
+        raise ValueError(k)
+    v = f["v"]
+    if op == "=":
+        return x == v
+    if op == "!=":
+        return x != v
+    if op == "in":
+        return x in v
+    if op == "<":
+        return x < v
+    if op == ">":
+        return x > v
+    if op == "<=":
+        return x <= v
+    if op == ">=":
+        return x >= v
+    raise ValueError(op)
 
 
 def outside_ids(case):
